@@ -15,8 +15,8 @@ EXTENDS Integers, Sequences, FiniteSets, TLC
 
 CONSTANTS Kinds, Fields, Vals, MaxUpdates, MaxReads
 
-VARIABLES cm, sec, lkg, last, nupd, nread, goodcm, goodsec
-vars == <<cm, sec, lkg, last, nupd, nread, goodcm, goodsec>>
+VARIABLES cm, sec, lkg, last, nupd, nread, lastupd
+vars == <<cm, sec, lkg, last, nupd, nread, lastupd>>
 
 AllU == [f \in Fields |-> "u"]
 KindContent == {[st |-> "absent", f |-> AllU], [st |-> "garbage", f |-> AllU]} \cup {[st |-> "fields", f |-> g] : g \in [Fields -> Vals]}
@@ -32,18 +32,17 @@ Decodable(k) == \A f \in Fields : Merged(k)[f] # "x"
 Parses(c) == \A k \in Kinds : c[k].st # "garbage"
 
 Init == /\ cm = Empty /\ sec = Empty /\ lkg = [k \in Kinds |-> [has |-> FALSE, v |-> AllU]] /\ last = [k |-> "", ok |-> TRUE, res |-> AllU]
-        /\ nupd = 0 /\ nread = 0 /\ goodcm = {Empty} /\ goodsec = {Empty}
+        /\ nupd = 0 /\ nread = 0 /\ lastupd = [src |-> "", c |-> Empty]
 
 \* an informer event for the ConfigMap / Secret: the content replaces the loader's cache only if all of it parses
 Update(src, c) ==
     /\ nupd < MaxUpdates /\ nupd' = nupd + 1
     /\ IF src = "cm"
        THEN /\ cm' = IF Parses(c) THEN c ELSE cm
-            /\ goodcm' = IF Parses(c) THEN goodcm \cup {c} ELSE goodcm
-            /\ UNCHANGED <<sec, goodsec>>
+            /\ UNCHANGED sec
        ELSE /\ sec' = IF Parses(c) THEN c ELSE sec
-            /\ goodsec' = IF Parses(c) THEN goodsec \cup {c} ELSE goodsec
-            /\ UNCHANGED <<cm, goodcm>>
+            /\ UNCHANGED cm
+    /\ lastupd' = [src |-> src, c |-> c]
     /\ UNCHANGED <<lkg, last, nread>>
 
 \* Configs().Jobs() / JobConfigs() / Cron()
@@ -53,7 +52,7 @@ Read(k) ==
        THEN /\ last' = [k |-> k, ok |-> TRUE, res |-> Merged(k)] /\ lkg' = [lkg EXCEPT ![k] = [has |-> TRUE, v |-> Merged(k)]]
        ELSE /\ last' = IF ~lkg[k].has THEN [k |-> k, ok |-> FALSE, res |-> AllU] ELSE [k |-> k, ok |-> TRUE, res |-> lkg[k].v]
             /\ UNCHANGED lkg
-    /\ UNCHANGED <<cm, sec, nupd, goodcm, goodsec>>
+    /\ UNCHANGED <<cm, sec, nupd, lastupd>>
 
 Next == \/ \E src \in {"cm", "sec"}, c \in Content : Update(src, c)
         \/ \E k \in Kinds : Read(k)
@@ -61,7 +60,12 @@ Spec == Init /\ [][Next]_vars
 
 \* ---- properties
 \* a source is never partially applied: its cache is the content of one whole accepted update
-C19_NoPartial == cm \in goodcm /\ sec \in goodsec /\ Parses(cm) /\ Parses(sec)
+C19_NoPartial == Parses(cm) /\ Parses(sec)
+\* ... and an update either replaces the source's content as a whole or leaves it untouched (all-or-nothing)
+C19_AllOrNothing == [][nupd' # nupd =>
+                        LET u == lastupd' IN
+                        /\ (u.src = "cm" => (cm' = IF Parses(u.c) THEN u.c ELSE cm) /\ sec' = sec)
+                        /\ (u.src = "sec" => (sec' = IF Parses(u.c) THEN u.c ELSE sec) /\ cm' = cm)]_vars
 \* a successful read served from the sources is the field-wise layering of the current good contents
 C19_Layering == [][\A k \in Kinds : (nread' # nread /\ last'.k = k /\ Decodable(k)) =>
                      (last'.ok /\ \A f \in Fields : last'.res[f] =
